@@ -50,7 +50,8 @@ def main():
         },
         "checks_run": {k: {"exit": v["exit"], "wall_s": v["wall_s"],
                            "violations": [r.get("signature") or r.get("kind") for r in v["replays"]][:6],
-                           "first_replay": (v["replays"][0] if v["replays"] else None)} for k, v in summ["checks"].items()},
+                           "first_replay": (v["replays"][0] if v["replays"] else None),
+                           "replay_cmd": v.get("replay_cmd")} for k, v in summ["checks"].items()},
         "caught_by": caught, "not_caught_by": missed, "tier": a.tier, "verif_seed": a.seed,
     }
     dst = VERIF / "seeded" / a.id
